@@ -101,6 +101,14 @@ NOTES = {
  "C16-3": dict(change="the vote counter becomes a field r.votes reset only in becomePreCandidate/becomeCandidate; a pre-candidate's successive prevote rounds add up", needs="connected minority of two voters in a cluster of five, partition longer than two election timeouts, heal",
              as_delivered="reported under C16 only through side effects of the changed signature (PREVOTE-TOKEN's parameter position; ROUND-KIND panicked → undecided); the rule that names the defect, COUNT-VOTES ('not a variable local to this call: votes of different rounds would accumulate'), was not in C16's rules",
              strengthened="COUNT-VOTES added to C16; ROUND-KIND no longer panics on a changed signature"),
+ "C08-3": dict(change="RequestVote inlines the step-down on a higher term with stepdown() (which does not persist) instead of becomeFollower; only the grant path persists afterwards", needs="real vote request with a higher term from a candidate whose log is behind (vote refused), then crash and restart of the voter",
+             as_delivered="caught by the C08 check (TERM-VOTE/VOTE-PERSIST: a write of term/vote reaches the end of its critical section without SetState)", strengthened="none needed"),
+ "C14-3": dict(change="InstallSnapshot accepts a chunk whose offset is BEYOND the partial file ('request.Offset < offset' instead of '!=')", needs="receiver killed between two chunk writes (or between the write and Close) of a transfer; the leader carries on from its old offset",
+             as_delivered="caught by IS-HANDLER (IS-OFFSET), but IS-HANDLER was not wired to C14 — the C14 check stayed silent", strengthened="IS-HANDLER added to C14 (known finding D10 extended to C14)"),
+ "C18-3": dict(change="the wait loop of the InstallSnapshot handler lost its Shutdown test", needs="follower whose log holds the snapshot's last entry but has not applied it; Stop() while the handler waits",
+             as_delivered="caught by the C18 check (COND-PARITY: the loop around Wait contains no test of r.state against Shutdown that leaves the loop)", strengthened="none needed (while looking at this wait, its missing wake-up on an idle cluster became D30)"),
+ "C20-3": dict(change="start(): transport.Run() moved before the three Register…Handler calls", needs="an RPC dispatched while Start/Restart is still registering handlers (nil handler call / unsynchronised write vs read of the handler fields)",
+             as_delivered="caught by the C20 check (LOCKSET: handler field written without transport.mu and not ordered before Transport.Run)", strengthened="none needed"),
  "C20": dict(change="shared (*LogEntry).toProto helper makes the wire converter read entry.Offset (unlocked) while Compact rewrites it", needs="AppendEntries request in flight (converted with the mutex released) while the node compacts its log; visible only under -race",
              as_delivered="MISSED: LOCKSET guards node state, not the fields of shared log entries (and the tables corpus had filed 'send Offset both ways' as benign)", strengthened="OFFSET-OWNER (C20): LogEntry.Offset may be accessed only by code that runs inside the bundled log; the benign case was reclassified as a must-fire mutant"),
 }
